@@ -789,6 +789,12 @@ class _GroupBy(ToolBase):
                     if closes[(n - 1) % 4]:
                         await group.aclose()
                         yield ("group-closed",)  # (a point at which the consumer may stop using the groupby)
+                if groups:
+                    # the groupby has reported its end: every group handed out is at its end too
+                    try:
+                        yield ("after-end", await groups[-1].__anext__())
+                    except StopAsyncIteration:
+                        yield stop
             finally:
                 await gb.aclose()
 
@@ -833,6 +839,11 @@ class _GroupBy(ToolBase):
                         break
                 if closes[(n - 1) % 4]:
                     yield ("group-closed",)
+            if groups:
+                try:
+                    yield ("after-end", next(groups[-1]))
+                except StopIteration:
+                    yield stop
 
         return driver()
 
